@@ -8,6 +8,11 @@ ASSUMPTIONS = [
 ]
 
 CONF = {
+    "C18": {
+        "rule": "rapid-generated histories (4..14 blocks of 1..4 transactions over all flows and admin types, ledger changes and injected faults, from genesis states with >=3 entries per registry); the raw transaction bytes of the generating run are recorded and replayed on fresh chain instances: twice sequentially, once after an unrelated history ran in the same process, three times concurrently on goroutines next to instances replaying another history, and (TestC18Proc) in a second OS process with GOMAXPROCS=1, another TZ/LANG and working directory; oracle: per-block store root hash (real rootmulti Commit), per-transaction code/log/events/response data, exported genesis, all 19 query responses and the raw KV dump are byte-identical across all replays and agree with the generating run; thorough runs under the race detector; non-trivial = history with >=10 successful transactions of >=4 kinds; distinct by op/outcome sequence",
+        "quick": {"rapid": [("TestC18", 150, 1), ("TestC18Proc", 40, 1)]},
+        "thorough": {"rapid": [("TestC18", 400, 12), ("TestC18Proc", 200, 4)], "race": True},
+    },
     "C20": {
         "rule": "rapid cases: a state reached from a regular genesis by 0..6 generated transactions, or (1/3) from a hostile genesis accepted by validation and initialisation (thresholds incl. 66076420 and 2^32-1, empty roles, odd-length registry entries), then 1..12 hostile inputs: (a/b) a valid message of one of the 25 types (all required per run) marshalled to the wire and mutated in <=2 fields with protowire (field dropped = absent amount/byte field, duplicated, truncated, retyped, hostile content: empty/short/long/10 kB/non-UTF-8/fold-alike strings, malformed from), executed through the real transaction pipeline (L2) or decoded and handed straight to the handler (L1, for inputs the transaction decoder would stop); (c) all 19 queries with mutated requests, hostile pagination (key+offset, huge limit/offset, reverse+key) and nil requests; (d) byte strings into both decoders; (e) CLI address strings (short, non-ASCII, non-base58, arbitrary unicode). Oracle: no panic (recover at L1/L0, SDK panic code 111222 at L2/queries). non-trivial = message/query input derived from a valid request by <=2 hostile changes; distinct by (kind, type, bytes)",
         "quick": {"rapid": [("TestC20", 1500, 1)]},
@@ -110,6 +115,12 @@ CONF = {
 ALL = ["C%02d" % i for i in range(1, 21)]
 
 MANIFEST_TEXT = {
+    "C18": {
+        "technique": "differential / metamorphic replay testing over rapid-generated histories: fresh instances, after unrelated histories, concurrently on goroutines, in a second OS process with a different environment; thorough tier under the Go race detector",
+        "level": "Exploration: a nondeterminism or hidden shared state must show in root hash, responses, events, export or queries of some replay. The static-scan clause of the property is not decided (DESIGN.md section 6); Go scheduling is not controlled.",
+        "note": "Panic logs (stack traces) are masked in the digest; sdk address cache switched off; bech32 prefix fixed per process.",
+        "ref": "DESIGN.md section 3 C18",
+    },
     "C20": {
         "technique": "structured fuzzing / PBT (rapid): wire-level mutation of valid messages and queries with protowire, executed through the real BaseApp pipeline and directly against handlers with recover(), in generated and hostile-genesis states; native go fuzz targets for wire messages, queries and CLI strings (thorough)",
         "level": "Exploration; oracle is absence of panic only. One known finding (cosmos-sdk query.Paginate panics on reverse+key pagination) is reported as KNOWN-FINDING and excluded by exact signature.",
@@ -226,5 +237,5 @@ MANIFEST_TEXT = {
     },
 }
 
-_NOT_YET = "check not built yet in this round (planned in DESIGN.md section 3); not claimed until it runs"
+_NOT_YET = "" or "check not built yet in this round (planned in DESIGN.md section 3); not claimed until it runs"
 NOT_APPLICABLE = [{"property_id": p, "reason": _NOT_YET} for p in ALL if p not in CONF]
